@@ -129,6 +129,19 @@ func (vt *Model) decrc() {
 	}
 
 	vt.cursor = state.cursor
+	// The screen may have been resized since the cursor was saved
+	if vt.cursor.row > row(vt.height()-1) {
+		vt.cursor.row = row(vt.height() - 1)
+	}
+	if vt.cursor.col > column(vt.width()-1) {
+		vt.cursor.col = column(vt.width() - 1)
+	}
+	if vt.cursor.row < 0 {
+		vt.cursor.row = 0
+	}
+	if vt.cursor.col < 0 {
+		vt.cursor.col = 0
+	}
 	vt.charsets = charsets{
 		selected: state.charsets.selected,
 		saved:    state.charsets.saved,
